@@ -30,6 +30,7 @@ from ..core import Ctx, Report, pmap
 from ..tlc import MachineryError, fn_to_dict
 
 ALL_TPLS = ["chain", "cycle", "bi", "split", "homo", "tri"]
+DOUBLED_TPLS = ["homo", "dimer"]          # a compound with stoichiometric coefficient 2 (substrate side / product side)
 
 CFG = """CONSTANTS
     Tpls = {tpls}
@@ -38,6 +39,7 @@ CFG = """CONSTANTS
     Focus = {focus}
     OnlyInvolutive = {invol}
     DistAll = {distall}
+    Dists = {dists}
     LinMode = "doc"
     EmitOn = TRUE
 INIT Init
@@ -54,8 +56,8 @@ CHECK_DEADLOCK FALSE
 """
 
 
-def cfg_text(tpls, maxnl, maxl, invol=False, distall=False, focus=True) -> str:
-    return CFG.format(tpls="{" + ", ".join(f'"{t}"' for t in tpls) + "}", maxnl=maxnl, maxl=maxl,
+def cfg_text(tpls, maxnl, maxl, invol=False, distall=False, focus=True, dists=(1, 2, 3, 4)) -> str:
+    return CFG.format(dists="{" + ", ".join(str(d) for d in dists) + "}", tpls="{" + ", ".join(f'"{t}"' for t in tpls) + "}", maxnl=maxnl, maxl=maxl,
                       focus="TRUE" if focus else "FALSE",
                       invol="TRUE" if invol else "FALSE", distall="TRUE" if distall else "FALSE")
 
@@ -75,6 +77,22 @@ def all_involutive(b: dict) -> bool:
         if not is_involution([int(x) for x in r["map"]], max(S, P)):
             return False
     return True
+
+
+def doubled_case(scn: dict) -> bool:
+    """All maps involutive, some compound enters a reaction with coefficient >= 2 and has >= 2 positions, and those
+    positions carry different enrichments (the shape that distinguishes unit-major from position-major expansion)."""
+    if not scn["involutive"]:
+        return False
+    b = scn["b"]
+    e = fn_to_dict(scn["evals"][0]["e"])
+    for r in b["rxns"]:
+        for side in (r["subs"], r["prods"]):
+            for c in set(side):
+                n = int(b["nl"][c])
+                if side.count(c) >= 2 and n >= 2 and len({(e[f"{c}__{i}"]["n"], e[f"{c}__{i}"]["d"]) for i in range(n)}) > 1:
+                    return True
+    return False
 
 
 def classify(scn: dict, detail: dict) -> str | None:
@@ -396,6 +414,11 @@ def run(ctx: Ctx) -> int:
                  tpls=ALL_TPLS, maxnl=3, maxl=3, invol=True),
             dict(name="deep", what="seeded simulation: all networks, counts 1..3, all maps max(S,P)<=6, independent distributions",
                  tpls=ALL_TPLS, maxnl=3, maxl=6, distall=True, focus=False, simulate="num=20", depth=80),
+            # a compound with coefficient 2 AND >= 2 positions (unit-major vs position-major expansion of a reaction
+            # side), judged without the known finding: involutive maps only, positions of a compound enriched differently
+            dict(name="doubled", what="exhaustive: 2A->B and A->2B networks, label counts 1..2 (doubled compound with 2 positions), "
+                 "involutive maps only, max(S,P)<=4, every combination of the two non-uniform distributions",
+                 tpls=DOUBLED_TPLS, maxnl=2, maxl=4, invol=True, distall=True, dists=(3, 4)),
         ]
     else:
         fams = [
@@ -409,6 +432,11 @@ def run(ctx: Ctx) -> int:
                  tpls=ALL_TPLS, maxnl=3, maxl=6, invol=True),
             dict(name="deep", what="seeded simulation: all networks, counts 1..3, all maps max(S,P)<=6, independent distributions",
                  tpls=ALL_TPLS, maxnl=3, maxl=6, distall=True, focus=False, simulate="num=500", depth=80),
+            dict(name="doubled", what="exhaustive: 2A->B and A->2B networks, label counts 1..3 (doubled compound with 2-3 positions), "
+                 "involutive maps only, max(S,P)<=6, every combination of the two non-uniform distributions",
+                 tpls=DOUBLED_TPLS, maxnl=3, maxl=6, invol=True, distall=True, dists=(3, 4)),
+            dict(name="doubled_all", what="exhaustive: A->2B network, label counts 1..2, all maps max(S,P)<=4, non-uniform distributions",
+                 tpls=["dimer"], maxnl=2, maxl=4, distall=True, dists=(3, 4)),
         ]
     scns = tlc_families(ctx, rep, fams)
     rep.exhaustive = True
@@ -425,8 +453,11 @@ def run(ctx: Ctx) -> int:
             raise MachineryError("classifier and specification disagree on which maps are involutive")
     if len(scns) < (1200 if ctx.quick else 8000) or n_inv < 200 or n_inv == len(scns):
         raise MachineryError(f"case family too small or one-sided: {len(scns)} cases, {n_inv} involutive")
-    rep.notes["cases"] = {"total": len(scns), "all_maps_involutive": n_inv,
-                          "by_template": {t: sum(1 for s in scns if s["tpl"] == t) for t in ALL_TPLS}}
+    n_dbl = sum(1 for s in scns if doubled_case(s))
+    if n_dbl < 100:
+        raise MachineryError(f"only {n_dbl} involutive cases with a doubled multi-position compound and unequal enrichments")
+    rep.notes["cases"] = {"total": len(scns), "all_maps_involutive": n_inv, "doubled_multi_position_involutive": n_dbl,
+                          "by_template": {t: sum(1 for s in scns if s["tpl"] == t) for t in ALL_TPLS + ["dimer"]}}
     # ---- binding self-test: one corrupted expected value must be noticed by the comparison ---------------------
     probe = next(s for s in scns if s["involutive"] and s["tpl"] == "bi")
     probe_obs = observe(probe)
